@@ -33,11 +33,11 @@ type Pool struct {
 	Timeout time.Duration
 	Env     []string
 
-	mu      sync.Mutex
-	idle    chan *worker
-	all     []*worker
-	nextID  int64
-	Deaths  int64
+	mu       sync.Mutex
+	idle     chan *worker
+	all      []*worker
+	nextID   int64
+	Deaths   int64
 	Timeouts int64
 	Requests int64
 }
@@ -53,6 +53,7 @@ func New(bin, dir string, n int) *Pool {
 
 func (p *Pool) start(w *worker) error {
 	cmd := exec.Command(p.Bin)
+	cmd.Dir = p.Dir // sandbox: relative paths used by library functions land in the scratch dir
 	cmd.Env = append(os.Environ(), p.Env...)
 	cmd.Env = append(cmd.Env, "TMPDIR="+p.Dir)
 	stdin, err := cmd.StdinPipe()
